@@ -387,7 +387,10 @@ func (h *H) mic(p lorawan.PHYPayload, which int, set bool) {
 	})
 }
 
-func (h *H) frameCrypt(p lorawan.PHYPayload, which int) {
+func (h *H) frameCrypt(p lorawan.PHYPayload, which int) { h.frameCryptKey(p, which, nil) }
+
+// frameCryptKey: with k == nil a random key is drawn.
+func (h *H) frameCryptKey(p lorawan.PHYPayload, which int, k *lorawan.AES128Key) {
 	a := h.arena()
 	f, ok := a.hphy(&p)
 	if !ok {
@@ -397,6 +400,9 @@ func (h *H) frameCrypt(p lorawan.PHYPayload, which int) {
 	snap0 := snapshot(p, 0)
 	var key lorawan.AES128Key
 	copy(key[:], h.r.Bytes(16))
+	if k != nil {
+		key = *k
+	}
 	st := guard(func() error {
 		switch which {
 		case 0:
@@ -559,6 +565,9 @@ func main() {
 
 	// ---- multi-entry FOpts / FRMPayload lists ----
 	h.mixed(mult)
+
+	// ---- no hidden shared state, over histories ----
+	h.history(mult)
 
 	// ---- reuse of values, band instances ----
 	h.reuse(mult)
